@@ -117,6 +117,10 @@ class SimdModelStage:
         if out and out[0] == "unsupported":
             return dict(evaluations=0, distinct=set(), hist={"skipped": "no SSE4.1"}, samples=[], mismatches=[])
         out = out[1:]
+        rcb, outb = core.run(["lake", "build", "B3.Simd.Run"], cwd=core.LEAN_DIR, timeout=3600)
+        if rcb != 0:
+            return dict(evaluations=0, distinct=set(), hist={}, samples=[], mismatches=[dict(kind="driver-crash", impl_name="rs+pure", ops=[],
+                        note="the generated SSE4.1 code (B3.Simd.Run) does not build", log_tail=outb[-2000:])])
         try:
             pr = subprocess.run(["lake", "env", "lean", "--run", "RunSimd.lean"], cwd=core.LEAN_DIR, input="\n".join(model_lines) + "\n",
                                 stdout=subprocess.PIPE, stderr=subprocess.PIPE, text=True, timeout=1800)
